@@ -249,6 +249,14 @@ theorem tied_prefix {sc : List FS.Ev} {toks : List Tok} {e : Ending} (h : Tied s
   exact ⟨more ++ (FS.run FS.frameDec (FS.run FS.frameDec (.hdr []) (FS.evBytes taken)).1
     (if eos then [] else FS.evBytes (FS.upToFin rest))).2, by simp⟩
 
+/-- the blocks the reference automaton finds in the wire bytes are acceptable in their positions
+    (first HEADERS = head, second = trailers) ⇒ so are those of a frame sequence tied to the script -/
+theorem tied_hdrsOk (H : Hdr) {sc : List FS.Ev} {toks : List Tok} {e : Ending} (h : Tied sc toks e)
+    (hH : HdrsOkK H .head (kindsOf (FS.run FS.frameDec (.hdr []) (FS.evBytes (FS.upToFin sc))).2)) :
+    HdrsOk H toks := by
+  obtain ⟨more, hm⟩ := tied_prefix h
+  exact hdrsOk_of_ref H h.2 hm.symm hH
+
 /-- for every script there is a frame sequence `toks` with ending `e` such that the `FrameStream`
     model over the script is related to the token source over `toks`/`e`, the sequence is well
     formed, short enough for the fuel of `documentedChunks`, and tied to the bytes -/
@@ -285,6 +293,41 @@ theorem lift_exists (sc : List FS.Ev) (hsc : FS.ScriptOK sc)
 
 /-- the transport delivers chunks only: no `Pending`, no FIN, no RESET -/
 def OnlyChunks (l : List FS.Ev) : Prop := ∀ ev ∈ l, ∃ b, ev = FS.Ev.chunk b
+
+/-- `ScriptOK` and `OnlyChunks` are decidable: look at every event -/
+def scriptOKB (sc : List FS.Ev) : Bool :=
+  sc.all fun ev => match ev with | .chunk b => !b.isEmpty | _ => true
+
+theorem scriptOK_iff (sc : List FS.Ev) : FS.ScriptOK sc ↔ scriptOKB sc = true := by
+  unfold FS.ScriptOK scriptOKB
+  rw [List.all_eq_true]
+  constructor
+  · intro h ev hev
+    cases ev with
+    | chunk b => simpa using h b hev
+    | _ => rfl
+  · intro h b hb
+    simpa using h _ hb
+
+instance (sc : List FS.Ev) : Decidable (FS.ScriptOK sc) := decidable_of_iff _ (scriptOK_iff sc).symm
+
+def onlyChunksB (sc : List FS.Ev) : Bool :=
+  sc.all fun ev => match ev with | .chunk _ => true | _ => false
+
+theorem onlyChunks_iff (sc : List FS.Ev) : OnlyChunks sc ↔ onlyChunksB sc = true := by
+  unfold OnlyChunks onlyChunksB
+  rw [List.all_eq_true]
+  constructor
+  · intro h ev hev
+    obtain ⟨b, rfl⟩ := h ev hev
+    rfl
+  · intro h ev hev
+    have := h ev hev
+    cases ev with
+    | chunk b => exact ⟨b, rfl⟩
+    | _ => simp at this
+
+instance (sc : List FS.Ev) : Decidable (OnlyChunks sc) := decidable_of_iff _ (onlyChunks_iff sc).symm
 
 theorem split_before {α : Type} {taken rest pre post : List α} {x : α}
     (h : taken ++ rest = pre ++ x :: post) (hx : x ∉ taken) :
